@@ -194,6 +194,8 @@ def innerprod_body(ctx, case):
     ctx.require(isinstance(r, cm.SCALAR_TYPES) and not isinstance(r, bool), "innerprod-returns-scalar",
                 type(r).__name__)
     nterms = cm.terms(hx) * cm.terms(hy) * ref.prod(hx["shape"]) + 1
+    if case.get("tight"):
+        nterms = cm.tight_count(hx, hy)  # (round 3) see _c02_common.tight_count
     cm.compare(ctx, np.array(float(r)), expect, bound, nterms, cm.intvalued(hx, hy), "innerprod-value")
 
 
